@@ -118,6 +118,13 @@ def handle (j : Json) : Except String Json := do
       | _ => throw "items: array")
     let txt := dumpsStrArray items
     pure (Json.mkObj [("text", cpJson txt), ("loaded", match loadsStrArray txt with | some l => .arr (l.map cpJson).toArray | none => .null)])
+  | "const" =>
+    let ty ← argStr j "type"
+    match ty, ← natList (← j.getObjVal? "value") with
+    | "date", [y, m, d] => pure (Json.mkObj [("text", cpJson (constDateText ⟨y, m, d⟩))])
+    | "time", [h, mi, s, us] => pure (Json.mkObj [("text", cpJson (constTimeText ⟨h, mi, s, us⟩))])
+    | "datetime", [y, m, d, h, mi, s, us] => pure (Json.mkObj [("text", cpJson (constDatetimeText ⟨⟨y, m, d⟩, ⟨h, mi, s, us⟩⟩))])
+    | _, _ => throw "const: date/time/datetime with its fields"
   | "affinity" =>
     let decl ← argStr j "decl"
     let cps ← natList (← j.getObjVal? "s")
